@@ -1,7 +1,7 @@
 // Obligation unit `layout`: variant-closing strategies of the native builder.
 //!min-verified: 40
 //!assume: std: `X.iter().cloned()` yields the elements of X in order (rule R10, `vx_iter_cloned` is external_body)
-//!assume: L4 `remove_data` (retain/any over a cloned iterator) is external_body here: contract `self' = filtered(self, ids)`; the same contract is checked on the real function by Kani (bounded) in unit kani-layout
+//!assume: L4 `remove_data` (retain/any over a cloned iterator) is external_body here: contract `self' = filtered(self, ids)`; the same contract is checked on the real function by Kani (bounded) in unit kani-definition (harness l4_remove_data_is_filter_keeping_order)
 //!assume: derive(Clone, Copy, PartialEq, Eq) on DatumId behaves as documented (rule R5)
 //!assume: domain bound: ends of existing data <= 2^30, size+align of an added datum <= 2^14, <= 2^16 additions per close; outside it usize arithmetic of the real code overflows
 //!assume: Verus' encoding of Rust semantics, Z3, rustc front end
